@@ -918,7 +918,53 @@ static void op_bulk(void) {
   op_malloc_many(req, count, kind);
 }
 
+/* ---- slice tables (refinement level, SegTrace.tla / MiSegValid.tla): at quiescent points of the program, the slice table of every
+   segment in which the program holds a block: kind, counters, the cnt / off / use entries, commit and purge masks as index ranges,
+   and the slice ranges of the program's blocks in it */
+static int seg_snap_on = 0, seg_snap_every = 1;
+static int (*seg_quiet)(void) = NULL;
+static long nsegsnaps = 0;
+static void seg_mask_ranges(const mi_commit_mask_t* m, size_t nbits) {
+  int first = 1; long start = -1;
+  for (size_t i = 0; i <= nbits; i++) {
+    int bit = (i < nbits) ? (int)((m->mask[i / MI_COMMIT_MASK_FIELD_BITS] >> (i % MI_COMMIT_MASK_FIELD_BITS)) & 1) : 0;
+    if (bit && start < 0) start = (long)i;
+    if (!bit && start >= 0) { vf_logf("%s[%ld,%zu]", first ? "" : ",", start, i - 1); first = 0; start = -1; }
+  }
+}
+static void emit_segs(void) {
+  static long calls = 0;
+  if (!seg_snap_on || (seg_quiet && !seg_quiet()) || (calls++ % seg_snap_every) != 0) return;
+  mi_segment_t* segs[24]; int ns = 0;
+  for (int s = 0; s < MAXSLOTS && ns < 24; s++) if (slots[s].p) {
+    mi_segment_t* sg = _mi_ptr_segment(slots[s].p); int seen = 0;
+    for (int k = 0; k < ns; k++) if (segs[k] == sg) seen = 1;
+    if (!seen) segs[ns++] = sg;
+  }
+  for (int k = 0; k < ns; k++) {
+    mi_segment_t* sg = segs[k];
+    size_t n = sg->slice_entries;
+    vf_logf("{\"e\":\"seg\",\"sid\":%d,\"kind\":\"%s\",\"entries\":%zu,\"info\":%zu,\"used\":%zu,\"abandoned\":%zu,\"owned\":%s,\"cnt\":[",
+            k, sg->kind == MI_SEGMENT_HUGE ? "huge" : "normal", n, sg->segment_info_slices, sg->used, sg->abandoned,
+            mi_atomic_load_relaxed(&sg->thread_id) != 0 ? "true" : "false");
+    for (size_t i = 0; i < n; i++) vf_logf("%s%u", i ? "," : "", (unsigned)sg->slices[i].slice_count);
+    vf_logf("],\"off\":[");
+    for (size_t i = 0; i < n; i++) vf_logf("%s%ld", i ? "," : "", (sg->slices[i].slice_offset % sizeof(mi_slice_t)) == 0 ? (long)(sg->slices[i].slice_offset / sizeof(mi_slice_t)) : -1L);
+    vf_logf("],\"use\":[");
+    for (size_t i = 0; i < n; i++) vf_logf("%s%d", i ? "," : "", sg->slices[i].block_size > 0 ? 1 : 0);
+    vf_logf("],\"commit\":["); seg_mask_ranges(&sg->commit_mask, MI_COMMIT_MASK_BITS);
+    vf_logf("],\"purge\":["); seg_mask_ranges(&sg->purge_mask, MI_COMMIT_MASK_BITS);
+    vf_logf("],\"live\":["); int first = 1;
+    for (int s = 0; s < MAXSLOTS; s++) if (slots[s].p && _mi_ptr_segment(slots[s].p) == sg) {
+      uintptr_t a = (uintptr_t)slots[s].p - (uintptr_t)sg, e = a + (slots[s].us > 0 ? slots[s].us - 1 : 0);
+      vf_logf("%s[%zu,%zu]", first ? "" : ",", (size_t)(a >> MI_SEGMENT_SLICE_SHIFT), (size_t)(e >> MI_SEGMENT_SLICE_SHIFT)); first = 0;
+    }
+    vf_logf("]}"); vf_log_line_end();
+    nsegsnaps++;
+  }
+}
 static void op_checkall(void) {
+  emit_segs();
   vf_logf("{\"e\":\"checkall\",\"t\":0,\"obs\":[");
   int first = 1;
   for (int s = 0; s < MAXSLOTS; s++) if (slots[s].p) {
